@@ -6,7 +6,7 @@
    model produces, every grammar table, every selector and transformer assignment, every handler
    classification consistent with the selection (in particular is_leaf< L > for every L), every
    stack the run starts from. *)
-From PegtlV Require Import Base Decode Grammar Engine Hooks HookFacts ParseTree ParseTreeSpec ParseTreeFacts ParseTreeEngine.
+From PegtlV Require Import Base Decode Grammar Engine Hooks HookFacts ParseTree ParseTreeSpec ParseTreeFacts ParseTreeEngine ParseTreeSpans.
 Local Open Scope N_scope.
 
 (* ---- the call tree of a log is well defined: call_forest is the inverse of flatten_forest ---- *)
@@ -80,6 +80,17 @@ Theorem C12_spans : forall selp ts x, In x (flat_map tree_nodes (deriv_forest se
   exists c, In c (live_forest ts) /\ node_of_call selp x c.
 Proof. exact derivation_nodes. Qed.
 Print Assumptions C12_spans.
+
+(* C12_spans_partial (containment): FULL STATEMENT "children contained in and ordered within their
+   parent, for every run" is refuted below (C12_spans_refuted_lookahead).  Closed here: whenever the
+   call forest is position-monotone for the contributing attempts (cmono_forest: each contributing
+   attempt inside its parent's span and after the previous contributing sibling — what a run without
+   at / not_at / rematch produces; the check measures tree_ok on every real tree and accepts a failure
+   only for grammars with such look-ahead heads), every position visible in the tree is nested and
+   ordered, for every selection and transformer assignment. *)
+Theorem C12_spans_partial : forall selp ts n, cmono_forest selp 0 n ts -> tree_ok 0 n (derivation_tree selp ts).
+Proof. exact derivation_tree_ok. Qed.
+Print Assumptions C12_spans_partial.
 
 (* ... and with store_content / remove_content only, the nodes are in pre-order EXACTLY those attempts *)
 Theorem C12_nodes_exact : forall selp ts, plain_sel selp ->
@@ -195,3 +206,13 @@ Example C12_example_backtrack :
   (forall fam r b e t, abeh no_C fam r b e <> AThrow t) /\ hidden_rules_inert ex_G no_C.
 Proof. repeat split; try (vm_compute; reflexivity); intros; try discriminate; reflexivity. Qed.
 Print Assumptions C12_example_backtrack.
+
+(* the premise of C12_spans_partial holds on that run *)
+Example C12_example_monotone :
+  exists c' evs ts, eval (pt_table ex_G ex_sel) (pt_cfg no_C) 20 (mkdyn true true 0 0 0) 0%nat (mkcur [97; 98; 97] pos0) = Res Ok c' evs /\
+    call_forest (hooks_of evs) = Some ts /\ cmono_forest (selected ex_G ex_sel) 0 3 ts.
+Proof.
+  eexists. eexists. eexists. split; [vm_compute; reflexivity|]. split; [vm_compute; reflexivity|].
+  cbv. intuition discriminate.
+Qed.
+Print Assumptions C12_example_monotone.
